@@ -81,7 +81,8 @@ Section Invs.
         destruct (args_loop recd rs h inobj ps0 []) as [rs1 [args|e]]; cbn [fst] in *; [|exact H1].
         assert (H2 : Q (bump_inv (rs_invs rs1) (r_id (ds_reg d)))) by (apply Q_bump; exact H1).
         destruct (cancels (ds_reg d) (get_inv (rs_invs rs1) (r_id (ds_reg d))));
-        (destruct (effective_outcome (ds_reg d) (get_inv (rs_invs rs1) (r_id (ds_reg d)))); cbn [fst]; exact H2).
+        (destruct (effective_outcome (ds_reg d) (get_inv (rs_invs rs1) (r_id (ds_reg d)))); cbn [fst]; try exact H2;
+         match goal with |- context [stores_any ?a ?b ?c] => destruct (stores_any a b c) end; exact H2).
     Qed.
   End WithRec.
 
@@ -151,6 +152,7 @@ Proof.
     specialize (Hm (r_id (ds_reg d))).
     destruct (cancels (ds_reg d) (get_inv (rs_invs rs1) (r_id (ds_reg d))));
     (destruct (effective_outcome (ds_reg d) (get_inv (rs_invs rs1) (r_id (ds_reg d)))); try discriminate;
+     match goal with |- context [stores_any ?a ?b ?c] => destruct (stores_any a b c) end; try discriminate;
      unfold aval_of, out_inst; destruct (nth_default 0 (r_dyn (ds_reg d)) (ds_out d) =? T_NILOUT); intros E; inversion E; subst; clear E;
      right; do 3 eexists; split; [reflexivity|]; cbn [rs_invs with_p log]; rewrite get_inv_bump_same; lia).
 Qed.
